@@ -78,8 +78,6 @@ class DialectOb(StmtOb):
             return "C09-tsql-merge-column-pairs-lost"
         if d in ("athena", "databricks", "trino") and st.kind == "merge" and same("sources") and same("targets") and subset("pairs"):
             return "C09-merge-insert-clause-pairs-lost"
-        if st.kind == "create" and same("sources") and same("targets"):
-            return "C09-create-table-column-definitions-differ"
         return None
 
     def body(self):
@@ -94,10 +92,7 @@ class DialectOb(StmtOb):
                 from sqllineage.exceptions import SQLLineageException
 
                 if isinstance(e, SQLLineageException):
-                    f = None
-                    if d == "impala" and self.st.kind == "ctas" and type(e).__name__ == "UnsupportedStatementException":
-                        f = "C09-impala-create-table-as-select-unsupported"
-                    bads.append((d, None, f))
+                    bads.append((d, None, None))
                     continue
                 raise
             if not self.compare(base, other):
